@@ -1094,7 +1094,7 @@ namespace bluetoe {
                 return false;
             }
 
-            std::uint8_t size() const
+            std::size_t size() const
             {
                 return current_ - begin_;
             }
@@ -1231,7 +1231,7 @@ namespace bluetoe {
             {
             }
 
-            std::uint8_t size() const
+            std::size_t size() const
             {
                 return current_ - begin_;
             }
